@@ -41,6 +41,27 @@ package memdb
 //@   ensures [C14:search-does-not-write-the-list] unchanged(p.nodeData) && unchanged(p.kvData) && sameslice(p.nodeData, old(p.nodeData)) && sameslice(p.kvData, old(p.kvData)) && p.n == old(p.n) && p.kvSize == old(p.kvSize)
 //@   ensures [C14:predecessor-is-smaller] prev ==> (p.prevNode[0] == 0 || mcmp(nodeKey(p, p.prevNode[0]), bytes(key)) < 0)
 
+// The backward searches (C14, C02: Prev / Last / a backward Seek of the memdb iterator stand on them). findLT: the
+// node returned is the head (nothing smaller) or holds a key smaller than the sought one, and the node that follows
+// it in the bottom list - the list of all entries - is the end or holds a key that is not smaller: nothing smaller
+// than the key lies behind the result. findLast: nothing follows the result in the bottom list. Neither writes the list.
+//@ func (*DB).findLT
+//@   props C14 C02
+//@   safety off
+//@   loop 1
+//@     invariant [C02,C14:search-stays-left-of-the-key] node == 0 || mcmp(nodeKey(p, node), bytes(key)) < 0
+//@     invariant [C02,C14:search-does-not-write-the-list] unchanged(p.nodeData) && unchanged(p.kvData) && sameslice(p.nodeData, old(p.nodeData)) && sameslice(p.kvData, old(p.kvData))
+//@   ensures [C02,C14:found-is-smaller] result != 0 ==> mcmp(nodeKey(p, result), bytes(key)) < 0
+//@   ensures [C02,C14:what-follows-is-not-smaller] p.nodeData[result+4] == 0 || mcmp(nodeKey(p, p.nodeData[result+4]), bytes(key)) >= 0
+//@   ensures [C02,C14:search-does-not-write-the-list] unchanged(p.nodeData) && unchanged(p.kvData) && sameslice(p.nodeData, old(p.nodeData)) && sameslice(p.kvData, old(p.kvData)) && p.n == old(p.n) && p.kvSize == old(p.kvSize)
+//@ func (*DB).findLast
+//@   props C14 C02
+//@   safety off
+//@   loop 1
+//@     invariant [C02,C14:search-does-not-write-the-list] unchanged(p.nodeData) && unchanged(p.kvData) && sameslice(p.nodeData, old(p.nodeData)) && sameslice(p.kvData, old(p.kvData))
+//@   ensures [C02,C14:nothing-follows-the-last] p.nodeData[result+4] == 0
+//@   ensures [C02,C14:search-does-not-write-the-list] unchanged(p.nodeData) && unchanged(p.kvData) && sameslice(p.nodeData, old(p.nodeData)) && sameslice(p.kvData, old(p.kvData)) && p.n == old(p.n) && p.kvSize == old(p.kvSize)
+
 // Lookups return the value stored with a key equal to the sought one (as decided by the search above), or not-found.
 //@ func (*DB).Get
 //@   props C14
